@@ -275,7 +275,7 @@ func (w *yieldWriter) Write(p []byte) (int, error) {
 }
 
 // editVisitor rewrites the nodes of the caller's own tree: variables are renamed, literals replaced.
-type editVisitor struct{}
+type editVisitor struct{ inPlace bool }
 
 func (v *editVisitor) Enter(n js.INode) js.IVisitor {
 	sched.Yield(sched.SiteVisit)
@@ -294,6 +294,16 @@ func (v *editVisitor) Enter(n js.INode) js.IVisitor {
 			x.Data = []byte("void 0")
 		case js.ThisToken:
 			x.Data = []byte("self")
+		default:
+			// the bytes of any other literal are rewritten where they are: a tree's byte slices are the
+			// caller's own input (or memory made for this tree), so that is the caller's to do
+			if v.inPlace {
+				for i, c := range x.Data {
+					if c >= 'a' && c <= 'z' {
+						x.Data[i] = c - 32
+					}
+				}
+			}
 		}
 	}
 	return v
@@ -541,7 +551,7 @@ func runWorkloadIn(in wlInput, scratch []byte, rec *memRec) (out []byte) {
 				// this caller rewrites its own tree in place, as a minifier does (and as the library's
 				// own Walk test does), and prints it again: nobody else's tree may notice
 				call()
-				js.Walk(&editVisitor{}, ast)
+				js.Walk(&editVisitor{inPlace: in.opt&16 != 0}, ast)
 				w3 := &yieldWriter{}
 				ast.JS(w3)
 				t.add("js-after-edit", w3.buf)
